@@ -362,3 +362,128 @@ func wireScript(c *Case) map[string]any {
 	}
 	return map[string]any{"out": strings.TrimSpace(res.Out)}
 }
+
+// ---------------------------------------------------------------- Protowire::parse through the method object
+// the same input as wire.parse, given to ParseMethod.Call as PHP values (string + options array);
+// the PHP result (array of objects number / wire_type / value) is walked back into the field JSON.
+func namedArr(pairs ...any) *data.ArrayValue {
+	a := &data.ArrayValue{}
+	for i := 0; i+1 < len(pairs); i += 2 {
+		z := data.NewZVal(pairs[i+1].(data.Value))
+		z.Name = pairs[i].(string)
+		a.List = append(a.List, z)
+	}
+	return a
+}
+
+func phpFields(v data.Value, packed map[string]int32) (any, bool) {
+	arr, ok := v.(*data.ArrayValue)
+	if !ok {
+		return nil, false
+	}
+	out := make([]any, 0, len(arr.List))
+	for _, z := range arr.List {
+		obj, ok := z.Value.(*data.ObjectValue)
+		if !ok {
+			return nil, false
+		}
+		numV, _ := obj.GetProperty("number")
+		wtV, _ := obj.GetProperty("wire_type")
+		val, _ := obj.GetProperty("value")
+		num, _ := numV.(data.AsInt).AsInt()
+		wt, _ := wtV.(data.AsInt).AsInt()
+		m := map[string]any{"n": num, "w": wt}
+		switch tv := val.(type) {
+		case *data.IntValue:
+			u := strconv.FormatUint(uint64(tv.Value), 10)
+			switch wt {
+			case 0:
+				m["t"] = "varint"
+			case 1:
+				m["t"] = "fixed64"
+			default:
+				m["t"] = "fixed32"
+			}
+			m["v"] = u
+		case *data.StringValue:
+			m["t"] = "bytes"
+			m["v"] = hex.EncodeToString([]byte(tv.Value))
+		case *data.ArrayValue:
+			if wt == 3 {
+				sub, ok := phpFields(tv, packed)
+				if !ok {
+					return nil, false
+				}
+				m["t"] = "group"
+				m["v"] = sub
+			} else if _, isPacked := packed[strconv.Itoa(num)]; isPacked {
+				vs := make([]string, 0, len(tv.List))
+				for _, e := range tv.List {
+					iv, ok := e.Value.(*data.IntValue)
+					if !ok {
+						return nil, false
+					}
+					vs = append(vs, strconv.FormatUint(uint64(iv.Value), 10))
+				}
+				if packed[strconv.Itoa(num)] == 5 {
+					m["t"] = "packed32"
+				} else {
+					m["t"] = "packed64"
+				}
+				m["v"] = vs
+			} else {
+				sub, ok := phpFields(tv, packed)
+				if !ok {
+					return nil, false
+				}
+				m["t"] = "msg"
+				m["v"] = sub
+			}
+		default:
+			m["t"] = fmt.Sprintf("php:%T", val)
+		}
+		out = append(out, m)
+	}
+	return out, true
+}
+
+func wireParseScript(c *Case) map[string]any {
+	b, err := hex.DecodeString(c.Hex)
+	if err != nil {
+		return map[string]any{"harness_error": err.Error()}
+	}
+	msg := &data.ArrayValue{}
+	for _, n := range c.Msg {
+		z := data.NewZVal(data.NewBoolValue(true))
+		z.Name = strconv.Itoa(int(n))
+		msg.List = append(msg.List, z)
+	}
+	pf := &data.ArrayValue{}
+	pe := &data.ArrayValue{}
+	for k, et := range c.Packed {
+		z := data.NewZVal(data.NewBoolValue(true))
+		z.Name = k
+		pf.List = append(pf.List, z)
+		y := data.NewZVal(data.NewIntValue(int(et)))
+		y.Name = k
+		pe.List = append(pe.List, y)
+	}
+	opts := namedArr("message_fields", msg, "packed_fields", pf, "packed_element_type", pe, "max_depth", data.NewIntValue(c.Max))
+	m := opw.NewParseMethod()
+	vm, _ := vrun.NewVM()
+	vars := m.GetVariables()
+	ctx := vm.CreateContext(vars)
+	ctx.SetVariableValue(vars[0], data.NewStringValue(string(b)))
+	// SetVariableValue clones arrays; the options array is bound as is
+	ctx.SetVariableValue(vars[1], opts)
+	r, ctl := m.Call(ctx)
+	if ctl != nil {
+		return map[string]any{"throw": true}
+	}
+	v, _ := r.(data.Value)
+	fs, ok := phpFields(v, c.Packed)
+	if !ok {
+		return map[string]any{"shape": fmt.Sprintf("%T", v)}
+	}
+	return map[string]any{"fields": fs}
+}
